@@ -225,6 +225,16 @@ func (m *Machine) callSSA2(caller *frame, pos token.Pos, fn *ssa.Function, args 
 		if in := m.W.intrinsic(fn); in != nil {
 			return in(m, caller, fn, args)
 		}
+		if m.Conf.StubText != nil && m.inPath && m.Conf.StubText[fn.String()] {
+			// message-formatting helper declared "not the subject" by the property's
+			// config: its string result is a placeholder (listed among the assumptions)
+			if res := fn.Signature.Results(); res.Len() == 1 {
+				if b, ok := res.At(0).Type().Underlying().(*types.Basic); ok && b.Info()&types.IsString != 0 {
+					return Str{S: "<text not modelled>"}
+				}
+			}
+			m.unsupported("stub_text function %s does not return a single string", fn.String())
+		}
 	}
 	if fn.Synthetic == "package initializer" {
 		if !m.W.wantInit(fn.Pkg) {
